@@ -26,14 +26,16 @@ TIERS = {"quick": (4, 250), "thorough": (16, 2500)}
 
 @st.composite
 def strategy(draw):
-    p = draw(st.integers(2, 6))
-    n = draw(st.integers(12, 70))
+    big = draw(st.integers(0, 4)) == 0  # many retained PCs: the regime where an 'auto' solver would turn to a randomised method
+    p = draw(st.integers(12, 18)) if big else draw(st.integers(2, 6))
+    n = draw(st.integers(40 if big else 12, 70))
     k = draw(st.integers(2, min(p, n - 2)))
     return {
         "n": n, "p": p, "k": k, "n_modes": draw(st.integers(1, k)), "tau_max": draw(st.integers(1, max(1, n // 3))),
         "kind": draw(st.sampled_from(["ar", "ar", "white"])), "seed": draw(st.integers(0, 2**31 - 1)),
         "center": draw(st.integers(0, 3)) > 0, "standardize": draw(st.integers(0, 2)) == 0,
         "scale_exp": draw(st.sampled_from([0, 0, -5, -2, 4])), "offset": draw(st.booleans()),
+        "solver": draw(st.sampled_from(["full", "auto", "auto"])),  # ('auto' is the default of the class)
     }
 
 
@@ -95,7 +97,8 @@ def run_case(desc, ctx):
 
     da = xr.DataArray(X, dims=("time", "x"), coords={"time": np.arange(n), "x": np.arange(p)})
     model = xe.single.OPA(n_modes=nm, tau_max=tmax, n_pca_modes=k, center=desc["center"], standardize=desc["standardize"],
-                          solver="full", random_state=0)
+                          solver=desc.get("solver", "full"), random_state=0)
+    ctx.event(f"solver={desc.get('solver', 'full')}")
     if isinstance(call(ctx, "fit_raises", model.fit, da, "time", disc=disc), Failed):
         return
     S = model.scores().transpose("time", "mode").values
@@ -123,6 +126,10 @@ def run_case(desc, ctx):
     # (4) descending
     ctx.check(np.all(np.diff(T) <= 1e-9 * max(1.0, np.abs(T).max())), "decorrelation_times_descending", f"{T}", **disc)
     # (5) optimality of the first mode among combinations of the retained PCs
+    if desc.get("solver", "full") != "full" and k + 10 < min(n, p):
+        # the PCA step may then use a randomised solver whose PCs only approximate the reference ones used below
+        ctx.event("reference_pc_checks_skipped_randomised_pca")
+        return
     rng = np.random.default_rng(desc["seed"] + 11)
     best = -np.inf
     a1, *_ = np.linalg.lstsq(Z, S[:, 0], rcond=None)
